@@ -70,6 +70,8 @@ func symLoopBound(n int)
 func symSetNow(t time.Time)
 func symUnpinNow()
 func symYield()
+func symIdle()
+func symPreemptBudget(n int)
 func symWaitUntil(f func() bool)
 func symSameObject(a, b []byte) bool
 func symKnown(id string, inRegion bool)
@@ -196,6 +198,8 @@ func symLoopBound(n int)     {}
 func symSetNow(t time.Time)  { zzclock.ZZClockPin(t) }
 func symUnpinNow()           { zzclock.ZZClockUnpin() }
 func symYield()              { zzclock.ZZSchedPoint(); runtime.Gosched() }
+func symPreemptBudget(n int) {}
+func symIdle()               { zzclock.ZZSchedPoint(); runtime.Gosched() }
 func symWaitUntil(f func() bool) {
 	zzclock.ZZSchedPoint()
 	for !zzclock.ZZSchedQuiet(f) {
